@@ -25,6 +25,7 @@ structure S where
   mem : Mem := {}
   dump : List Task := []          -- the implementation's last full dump
   pending : Option Pending := none
+  inflight : Option (Op × Time) := none   -- crash family: the operation in flight when the process was killed
   -- statistics
   ops : Nat := 0
   errs : Nat := 0
@@ -141,6 +142,32 @@ def stepLine (s : S) (req resp : List String) : S × List String :=
     | _ => (s, ["DIFF parse bad dump"])
   | "mismatch" :: prop :: rest => (s, [s!"MON {prop} " ++ " ".intercalate rest])
   | ["sav"] => (s, [])
+  | "crash" :: rest =>
+    -- the process was killed; `rest` is the request that had not been acknowledged ("-" = none)
+    match rest with
+    | ["-"] => ({ s with inflight := none }, [])
+    | _ => match decReq rest with
+      | some (op, _, now, _) => ({ s with inflight := some (op, now) }, [])
+      | none => (s, ["DIFF parse bad crash line"])
+  | ["crashdump"] =>
+    match resp with
+    | n :: rest =>
+      match n.toNat?.bind (fun n => decTasks n rest) with
+      | none => (s, ["DIFF parse bad crashdump"])
+      | some (ts, _) =>
+        -- atomic durability: acknowledged operations are all there; the one in flight is all-or-nothing
+        let absent := s.model.tasks
+        let applied := match s.inflight with
+          | some (op, now) => (Repo.step {} s.model now op).1.tasks
+          | none => absent
+        let sortById (l : List Task) := l.mergeSort (fun a b => a.id ≤ b.id)
+        let same (a b : List Task) := sortById a == sortById b
+        if same ts absent then ({ s with model := { tasks := ts }, dump := ts, pending := none }, [])
+        else if same ts applied then ({ s with model := { tasks := ts }, dump := ts, pending := none, nontrivial := true }, [])
+        else ({ s with model := { tasks := ts }, dump := ts, pending := none },
+          ["MON C13 after the kill the database holds neither the acknowledged operations alone nor those plus the whole in-flight one: found " ++
+            " ; ".intercalate (ts.map encTask) ++ " | acknowledged: " ++ " ; ".intercalate (absent.map encTask)])
+    | _ => (s, ["DIFF parse bad crashdump"])
   | ["heap"] =>
     if s.impl != "mem" then (s, []) else
     match decHeap resp with
